@@ -75,12 +75,20 @@ MetricOut(pt) ==
         ku(i, j) == Sum3R(LAMBDA a : Sum3R(LAMBDA b : RMul(RMul(gu(i, a), gu(j, b)), RInt(Sym(ke, a, b)))))
         ktr == Sum3R(LAMBDA i : Sum3R(LAMBDA j : RMul(gu(i, j), RInt(Sym(ke, i, j)))))
         adn(i, j) == RSub(RInt(Sym(ke, i, j)), RMul(RNorm(1, 3), RMul(RInt(Sym(ge, i, j)), ktr)))
+        (* a spatial tensor as a spacetime tensor (s_to_st): K_00 = beta^i beta^j K_ij, K_0k = beta^i K_ik, K_ij *)
+        k4(a, b) == IF a = 0 /\ b = 0 THEN Sum3R(LAMBDA i : Sum3R(LAMBDA j : RMul(RMul(bu(i), bu(j)), RInt(Sym(ke, i, j)))))
+                    ELSE IF a = 0 THEN Sum3R(LAMBDA i : RMul(bu(i), RInt(Sym(ke, i, b))))
+                    ELSE IF b = 0 THEN Sum3R(LAMBDA i : RMul(bu(i), RInt(Sym(ke, i, a))))
+                    ELSE RInt(Sym(ke, a, b))
+        nu(a) == IF a = 0 THEN RInv(al) ELSE RNeg(RDiv(bu(a), al))
     IN  [gammadet |-> RInt(dg), gammaup3 |-> [k \in 1 .. 9 |-> gu(((k - 1) \div 3) + 1, ((k - 1) % 3) + 1)],
          betadown3 |-> <<bd(1), bd(2), bd(3)>>, betamag |-> bb, gtt |-> gtt,
          gdet |-> RNeg(RMul(RMul(al, al), RInt(dg))),
          nup4 |-> <<RInv(al), RNeg(RDiv(bu(1), al)), RNeg(RDiv(bu(2), al)), RNeg(RDiv(bu(3), al))>>,
          Ktrace |-> ktr, Kup3 |-> [k \in 1 .. 9 |-> ku(((k - 1) \div 3) + 1, ((k - 1) % 3) + 1)],
          Adown3 |-> [k \in 1 .. 9 |-> adn(((k - 1) \div 3) + 1, ((k - 1) % 3) + 1)],
+         Kdown4 |-> [k \in 1 .. 16 |-> k4((k - 1) \div 4, (k - 1) % 4)],
+         K4n |-> [a \in 1 .. 4 |-> RAdd(RMul(k4(a - 1, 0), nu(0)), Sum3R(LAMBDA i : RMul(k4(a - 1, i), nu(i))))],
          Atrace |-> Sum3R(LAMBDA i : Sum3R(LAMBDA j : RMul(gu(i, j), adn(i, j)))),
          nn |-> RAdd(RMul(gtt, RMul(RInv(al), RInv(al))),
                      RAdd(RMul(RInt(0 - 2), Sum3R(LAMBDA i : RMul(bd(i), RMul(RInv(al), RDiv(bu(i), al))))),
@@ -125,6 +133,7 @@ MetricIdentities ==
         /\ o.gdet = RNeg(RMul(RMul(RNorm(Points[st].a2, 2), RNorm(Points[st].a2, 2)), o.gammadet))
         /\ o.Atrace = RZero                       \* the trace-free part is trace-free
         /\ o.nn = RInt(0 - 1)                     \* the unit normal is unit timelike
+        /\ \A a \in 1 .. 4 : o.K4n[a] = RZero     \* a spatial tensor written as a spacetime tensor is orthogonal to the normal
 
 Emit ==
     CASE Part = "matrix" -> PrintT(ToJson([e |-> [k \in 1 .. N * N |-> Sym(st, ((k - 1) \div N) + 1, ((k - 1) % N) + 1)],
